@@ -14,4 +14,5 @@ import (
 	_ "verifharness/props/c11"
 	_ "verifharness/props/c12"
 	_ "verifharness/props/c13"
+	_ "verifharness/props/c14"
 )
